@@ -21,8 +21,9 @@ PROPS = {
         not_decided="the I/O shells (reader.rs, xref.rs parse/recovery, object_stream.rs, page_tree.rs), LZW dictionary growth, CCITT/JBIG2/DCT decoders, text extraction, allocation sizes, wall-clock bounds",
     ),
     "C03": dict(
-        verus=["xrefstream", "strings", "names", "mainwriter"],
+        verus=["xrefstream", "strings", "names", "mainwriter", "xrefwriter"],
         standins=["objects", "writer-configs"],
+        kani=[K("c03_bytes_needed", "writer/xref_stream_writer.rs", "XRefStreamWriter::bytes_needed")],
         not_decided="text of classic xref entries ({:010} formatting of the recorded offsets), startxref, /Size, reference resolution, strict-parser acceptance (write_document's I/O sequence); buffered (object-stream) objects; names (see C30)",
     ),
     "C09": dict(
